@@ -515,14 +515,9 @@ class Ctx:
                 self.decisions.append((t, v, False))
                 return v
             if tid not in self._bool_in_pre:
-                self._bool_decided[tid] = True
-                if ex is not None:
-                    if len(self.decisions) >= ex.max_depth:
-                        raise PathAbort("decision depth budget")
-                    ex.schedule([d[1] for d in self.decisions] + [False])
-                self.decisions.append((t, True, True))
-                self.solver.add(t)
-                return True
+                v = self._fork(t)
+                self._bool_decided[tid] = v
+                return v
         t0 = time.time()
         self.n_branch_checks += 1
         r_true = self.solver.check(t)
@@ -544,6 +539,19 @@ class Ctx:
             fr = [f for f in traceback.extract_stack() if "/repo/" in f.filename or "/harness/" in f.filename][-2:]
             print("SLOW-DECISION %.2fs %s %s :: %s" % (time.time() - t0, r_true, r_false, " <- ".join("%s:%d" % (f.filename.split("/")[-1], f.lineno) for f in fr)), str(t)[:150].replace("\n", " "), flush=True)
         # genuine (or undecided) fork: take True now, schedule False
+        return self._fork(t)
+
+    def _fork(self, t):
+        """both sides of t are (or may be) feasible: take one now, schedule the other -- unless this execution is a shard that
+        owns only one side of its first `nbits` forks"""
+        ex = self.explorer
+        sh = self.opts.get("shard")
+        nf = sum(1 for d in self.decisions if d[2])
+        if sh is not None and nf < sh[1]:
+            v = bool((sh[0] >> nf) & 1)
+            self.decisions.append((t, v, True))
+            self.solver.add(t if v else z3.Not(t))
+            return v
         if ex is not None:
             if len(self.decisions) >= ex.max_depth:
                 raise PathAbort("decision depth budget")
